@@ -104,7 +104,19 @@ fn run_case(rep: &mut Report, r: &mut Rng, c: &Case) {
     let _pin = mon::pin_ctor(r.below(2));
     let mut p = Parser::new();
     let mut log: Log = Vec::new();
-    let pr = prior(r, &mut p, &mut log, c.id, n);
+    let mut pr = prior(r, &mut p, &mut log, c.id, n);
+    // one case in ten: the same message was sent before under the same id in a finer fragmentation
+    // and its tail was lost - what is buffered equals the new opener's payload, but two fragments
+    // have been counted
+    if r.chance(1, 10) && c.cuts[0] >= 2 && n < 250 {
+        let cut = r.usize(1, c.cuts[0] - 1);
+        for (k, part) in [(1u8, &c.payload[..cut]), (2u8, &c.payload[cut..c.cuts[0]])] {
+            let mut b = Build::simple(n + 1, k, c.id, b"A", part, 0);
+            b.id = c.idtext.clone();
+            let _ = feed(&mut p, &mut log, b.line(), false);
+        }
+        pr = "abandoned-regrouped-same-id";
+    }
     // twin: the same payload sent unfragmented on a fresh parser, same fill
     let mut twin = Parser::new();
     let twin_out = twin.parse(&nmea_ref::mk(1, 1, None, c.payload, c.fill), c.decode);
